@@ -425,7 +425,9 @@ class Gen:
     # ---- VTIMEZONE
     def vtimezone(self, tzid):
         self.features["component:VTIMEZONE"] += 1
-        off1, off2 = self.pick([("+0100", "+0200"), ("-0500", "-0400"), ("+0930", "+1030"), ("-0330", "-0230"), ("+0000", "+0100")])
+        off1, off2 = self.pick([("+0100", "+0200"), ("-0500", "-0400"), ("+0930", "+1030"), ("-0330", "-0230"), ("+0300", "+0400")])
+        # (no zone with standard offset +0000: vobject treats a zone equal to UTC as "no TZID", which changes what the
+        #  EXDATE clean-up writes -- value-level semantics outside the model, see notes/C14.md)
         subs = []
         std = [(None, "DTSTART", (), "%04d1025T030000" % self.rng.choice([1970, 1996, 2007])), (None, "TZOFFSETFROM", (), off2),
                (None, "TZOFFSETTO", (), off1), (None, "TZNAME", (), self.pick(["CET", "EST", "STD", "GMT"]))]
